@@ -31,6 +31,27 @@
 (*                                                                         *)
 (* Part "ppcode": the code-shaped transcription of _fmax * _get_cov        *)
 (* against the documented polynomial.                                      *)
+(*                                                                         *)
+(* Part "args": the CONSTRUCTOR-ARGUMENT lattice.  Every optional,         *)
+(* documented constructor argument of every exported kernel that enters    *)
+(* the covariance function (delta_func, base kernels, eps, power,          *)
+(* num_mixtures, num_deltas, num_angular_weights, vocab_size, max_degree,  *)
+(* rank, distance_function, active_dims of the kernels the main lattice    *)
+(* only builds without it) or the parameterisation through which the       *)
+(* parameters enter (constraints, priors with their setting closures)      *)
+(* ranges over its value classes, default first.  An argument is either    *)
+(* NEUTRAL (the covariance function at given parameter values does not     *)
+(* mention it) or enters the documented FORMULA; ArgsOK states that every  *)
+(* argument has a non-default value in the lattice and that neutral        *)
+(* arguments leave the denotation of the cell unchanged.                   *)
+(*                                                                         *)
+(* Exact kinds "arcmask" (the ArcKernel embedding with an activity         *)
+(* indicator delta_func on quarter-turn phases: inactive coordinates embed *)
+(* at the ORIGIN, hence squared chord lengths 0 / w^2 / 2 w^2 / 4 w^2) and *)
+(* "mtask" (IndexKernel B B^T + diag(v), MultitaskKernel K_XX (x) K_TT in  *)
+(* the per-point interleaved layout, LCMKernel sums of such terms).        *)
+(* DistinctOK: every multi-valued parameter of every exact instance has    *)
+(* pairwise distinct values (no ARD instance with equal entries).          *)
 (***************************************************************************)
 EXTENDS LinAlg, TLC
 
@@ -100,6 +121,71 @@ LatticeOK ==
     /\ (c.fam \in TwoPath /\ PathOf(c) = "fast" =>                                             \* every two-path cell can be forced onto the other branch
           \A f \in {"x1grad", "trace"} : LET t == [c EXCEPT !.force = f] IN Valid(t) /\ PathOf(t) = "generic" /\ Meaning(t) = Meaning(c))
     /\ (c.fam \notin TwoPath => c.force = "none")
+
+\* ============================== constructor arguments ============================================
+\* pseudo-families: "scale" (ScaleKernel around an ARD RBF kernel), "addstruct" / "prodstruct" (structure kernels around a 1-d RBF kernel)
+NewFams   == {"index", "multitask", "lcm", "rff", "distinput"}
+ArgFams   == Fams \cup NewFams \cup {"scale", "addstruct", "prodstruct"}
+LsFams    == TwoPath \cup {"rq", "periodic", "pp0", "pp1", "pp2", "pp3", "sdelta", "arc", "gskl", "rbfgrad", "matern52grad", "rbfgradgrad", "rff", "distinput"}
+ArgArdFams == ArdFams \cup {"rff", "scale", "multitask", "lcm", "addstruct", "prodstruct"}
+
+ConstraintVals == <<"positive", "interval", "greater">>          \* default Positive(); Interval(lo, hi) and GreaterThan(lo) around the parameter range
+PriorVals      == <<"none", "closure">>                          \* "closure": the parameter is set through the setting closure registered with the prior
+PassedVals     == <<"none", "registered">>                       \* a prior without setting closure (IndexKernel) / accepted and ignored with a warning (SpectralMixtureKernel)
+Args(f) ==   \* <<argument, <<default value, other values ...>>, effect>>
+  (IF f \in LsFams THEN {<<"lengthscale_constraint", ConstraintVals, "neutral">>, <<"lengthscale_prior", PriorVals, "neutral">>, <<"eps", <<"1e-6", "1e-3">>, "neutral">>} ELSE {})
+  \cup (CASE f = "rq"        -> {<<"alpha_constraint", ConstraintVals, "neutral">>}
+         [] f \in {"periodic", "cosine"} -> {<<"period_length_constraint", ConstraintVals, "neutral">>, <<"period_length_prior", PriorVals, "neutral">>}
+         [] f = "linear"     -> {<<"variance_constraint", ConstraintVals, "neutral">>, <<"variance_prior", PriorVals, "neutral">>}
+         [] f \in {"polynomial", "polygrad"} -> {<<"offset_constraint", ConstraintVals, "neutral">>, <<"offset_prior", PriorVals, "neutral">>,
+                                                 <<"power", <<"2", "1", "3", "4", "tensor3">>, "formula">>}
+         [] f = "constant"   -> {<<"constant_constraint", ConstraintVals, "neutral">>, <<"constant_prior", PriorVals, "neutral">>}
+         [] f = "scale"      -> {<<"outputscale_constraint", ConstraintVals, "neutral">>, <<"outputscale_prior", PriorVals, "neutral">>}
+         [] f = "sm"         -> {<<"num_mixtures", <<"3", "1", "2", "4">>, "formula">>, <<"active_dims", <<"none", "perm">>, "formula">>,
+                                 <<"mixture_scales_constraint", ConstraintVals, "neutral">>, <<"mixture_scales_prior", PassedVals, "neutral">>,
+                                 <<"mixture_means_constraint", ConstraintVals, "neutral">>, <<"mixture_means_prior", PassedVals, "neutral">>,
+                                 <<"mixture_weights_constraint", ConstraintVals, "neutral">>, <<"mixture_weights_prior", PassedVals, "neutral">>}
+         [] f = "sdelta"     -> {<<"num_deltas", <<"128", "1", "3">>, "formula">>, <<"Z_constraint", ConstraintVals, "neutral">>}
+         [] f = "arc"        -> {<<"delta_func", <<"ones", "nonneg", "gate">>, "formula">>, <<"base_kernel", <<"matern25", "rbf", "matern15", "rq", "poly2">>, "formula">>,
+                                 <<"angle_prior", PriorVals, "neutral">>, <<"radius_prior", PriorVals, "neutral">>, <<"active_dims", <<"none", "perm">>, "formula">>}
+         [] f = "cyl"        -> {<<"eps", <<"1e-6", "1e-3", "1e-2">>, "formula">>, <<"num_angular_weights", <<"3", "1", "2", "4">>, "formula">>,
+                                 <<"radial_base_kernel", <<"matern25", "rbf", "matern05">>, "formula">>, <<"active_dims", <<"none", "perm">>, "formula">>,
+                                 <<"angular_weights_constraint", ConstraintVals, "neutral">>, <<"angular_weights_prior", PriorVals, "neutral">>,
+                                 <<"alpha_constraint", ConstraintVals, "neutral">>, <<"alpha_prior", PriorVals, "neutral">>,
+                                 <<"beta_constraint", ConstraintVals, "neutral">>, <<"beta_prior", PriorVals, "neutral">>}
+         [] f = "hamming"    -> {<<"vocab_size", <<"3", "2", "5">>, "formula">>, <<"alpha_constraint", ConstraintVals, "neutral">>, <<"alpha_prior", PriorVals, "neutral">>,
+                                 <<"beta_constraint", ConstraintVals, "neutral">>, <<"beta_prior", PriorVals, "neutral">>}
+         [] f = "gskl"       -> {<<"active_dims", <<"none", "perm">>, "formula">>}
+         [] f = "ngadd"      -> {<<"max_degree", <<"none", "1", "2", "over">>, "formula">>, <<"base_kernel", <<"rbf", "matern25", "rq">>, "formula">>,
+                                 <<"active_dims", <<"none", "perm">>, "formula">>}
+         [] f \in {"addstruct", "prodstruct"} -> {<<"active_dims", <<"none", "perm">>, "formula">>, <<"base_kernel", <<"rbf", "matern15", "rq", "periodic">>, "formula">>}
+         [] f = "index"      -> {<<"rank", <<"1", "2", "full">>, "formula">>, <<"var_constraint", ConstraintVals, "neutral">>, <<"prior", PassedVals, "neutral">>}
+         [] f = "multitask"  -> {<<"rank", <<"1", "2", "full">>, "formula">>, <<"data_covar_module", <<"rbf", "matern15", "linear">>, "formula">>,
+                                 <<"task_covar_prior", PassedVals, "neutral">>}
+         [] f = "lcm"        -> {<<"rank", <<"1", "2", "list">>, "formula">>, <<"base_kernels", <<"2", "1", "3">>, "formula">>}
+         [] f = "rff"        -> {<<"num_dims", <<"none", "d">>, "formula">>, <<"num_samples", <<"4", "1", "7">>, "formula">>, <<"active_dims", <<"none", "perm">>, "formula">>}
+         [] f = "distinput"  -> {<<"distance_function", <<"skl", "l1", "sqmean">>, "formula">>, <<"active_dims", <<"none", "perm">>, "formula">>}
+         [] OTHER -> {})
+SeqRange(q) == {q[k] : k \in 1..Len(q)}
+ArgDim(f)    == IF f = "ngadd" THEN 3 ELSE 2
+ArdOpts(f)   == IF f \in ArgArdFams \cup {"sm"} THEN (IF f \in {"sm", "scale", "addstruct", "prodstruct", "lcm"} THEN {TRUE} ELSE BOOLEAN) ELSE {FALSE}
+BatchOpts(f) == IF f \in {"lcm", "distinput", "multitask"} THEN {"none"} ELSE {"none", "kernel"}   \* MultitaskKernel with a batched task covariance and batched inputs raises (recorded under C08)
+ArgCells == UNION {UNION {{[fam |-> f, arg |-> a[1], val |-> v, d |-> ArgDim(f), ard |-> r, adims |-> (a[1] = "active_dims" /\ v = "perm"), comp |-> "plain", batch |-> b, mode |-> m,
+                            force |-> "none"] : v \in SeqRange(a[2]), r \in ArdOpts(f), b \in BatchOpts(f), m \in Modes} : a \in Args(f)} : f \in ArgFams}
+ArgRow(s)  == CHOOSE a \in Args(s.fam) : a[1] = s.arg
+ArgOut(s)  == [effect |-> ArgRow(s)[3], dflt |-> ArgRow(s)[2][1]]
+\* what the documented covariance function of a cell depends on: a neutral argument is not part of it
+ArgMeaning(s) == [fam |-> s.fam, d |-> s.d, ard |-> s.ard, batch |-> s.batch, mode |-> s.mode,
+                  arg |-> IF ArgRow(s)[3] = "neutral" THEN "-" ELSE s.arg, val |-> IF ArgRow(s)[3] = "neutral" THEN "-" ELSE s.val]
+ArgsOK ==
+  Part = "args" =>
+    /\ c.fam \in ArgFams /\ \E a \in Args(c.fam) : a[1] = c.arg /\ c.val \in SeqRange(a[2])
+    /\ out = ArgOut(c)
+    /\ \A a \in Args(c.fam) : Len(a[2]) >= 2 /\ \A k \in 2..Len(a[2]) : a[2][k] # a[2][1] /\ [c EXCEPT !.arg = a[1], !.val = a[2][k], !.adims = (a[1] = "active_dims")] \in ArgCells
+    /\ (ArgRow(c)[3] = "neutral" => ArgMeaning(c) = ArgMeaning([c EXCEPT !.val = ArgRow(c)[2][1]]))
+    /\ (ArgRow(c)[3] = "formula" /\ c.val # ArgRow(c)[2][1] => ArgMeaning(c) # ArgMeaning([c EXCEPT !.val = ArgRow(c)[2][1]]))
+\* every family of the main lattice and every new family has at least one argument row
+ASSUME \A f \in ArgFams : Args(f) # {}
 
 \* ============================== layout ==========================================================
 LayoutCells == [n1 : 1..3, n2 : 1..3, d : 1..3, order : 1..2]
@@ -254,6 +340,58 @@ NGMats(i) ==
       add  |-> M(LAMBDA z : ESub(z, 1)),                                                              \* AdditiveStructureKernel
       prod |-> M(LAMBDA z : ESub(z, D))]                                                              \* ProductStructureKernel
 
+\* ---- ArcKernel with an activity indicator (delta_func) on quarter-turn phases -----------------------------------
+\* coordinate i of point r: active (A[r][i] = 1) with phase pi rho_i x_i / L_i = Q[r][i] * pi / 2, or inactive (A[r][i] = 0);
+\* documented embedding g_i = [0, 0] if inactive, w_i [sin, cos] otherwise; then the base kernel with unit lengthscale
+SinQ(k) == CASE k % 4 = 0 -> 0 [] k % 4 = 1 -> 1 [] k % 4 = 2 -> 0 [] OTHER -> -1
+CosQ(k) == CASE k % 4 = 0 -> 1 [] k % 4 = 1 -> 0 [] k % 4 = 2 -> -1 [] OTHER -> 0
+OmOf(om, t) == IF Len(om) = 1 THEN om[1] ELSE om[t]                                                              \* one radius per dimension with ard_num_dims, else shared
+ArcEmb(q, a, om) == [k \in 1..(2 * Len(q)) |-> LET t == IF k <= Len(q) THEN k ELSE k - Len(q)                   \* torch.cat((sin part, cos part), -1)
+                                                 IN RMul(Q(OmOf(om, t)), R(a[t] * (IF k <= Len(q) THEN SinQ(q[t]) ELSE CosQ(q[t]))))]
+RSqDist(u, v) == RSum([k \in 1..Len(u) |-> RMul(RSub(u[k], v[k]), RSub(u[k], v[k]))])
+ArcBase(i, u, v) == CASE i.base = "rq"   -> RDiv(ROne, RAdd(ROne, RDiv(RSqDist(u, v), R(2))))                    \* RQ, alpha = 1, unit lengthscale
+                      [] i.base = "lin"  -> RMul(Q(i.v), Dot(u, v))
+                      [] i.base = "poly" -> RPow(RAdd(Dot(u, v), Q(i.off)), i.p)
+ArcMat(i) == [r \in 1..Len(i.Q1) |-> [s \in 1..Len(i.Q2) |-> ArcBase(i, ArcEmb(i.Q1[r], i.A1[r], i.om), ArcEmb(i.Q2[s], i.A2[s], i.om))]]
+\* squared chord between the embeddings of one coordinate: both inactive 0; one inactive w^2 (a point of the circle against the ORIGIN);
+\* both active: 0, 2 w^2, 4 w^2 for a phase difference of 0, 1 or 3, 2 quarter turns
+Chord2(q1, a1, q2, a2, om) ==
+  LET w2 == RMul(Q(om), Q(om)) dq == (q1 - q2) % 4
+  IN IF a1 = 0 /\ a2 = 0 THEN RZero ELSE IF a1 = 0 \/ a2 = 0 THEN w2
+     ELSE IF dq = 0 THEN RZero ELSE IF dq = 2 THEN RMul(R(4), w2) ELSE RMul(R(2), w2)
+ArcOK(i) == \A r \in 1..Len(i.Q1), s \in 1..Len(i.Q2) :
+              RSqDist(ArcEmb(i.Q1[r], i.A1[r], i.om), ArcEmb(i.Q2[s], i.A2[s], i.om))
+                = RSum([k \in 1..Len(i.Q1[r]) |-> Chord2(i.Q1[r][k], i.A1[r][k], i.Q2[s][k], i.A2[s][k], OmOf(i.om, k))])
+
+\* ---- task kernels: IndexKernel, MultitaskKernel, LCMKernel ------------------------------------------------------------
+TaskCov(t) == MAdd(MMul(FromInt(t.B), Tr(FromInt(t.B))), Diag([k \in 1..Len(t.v) |-> Q(t.v[k])]))             \* B B^T + diag(v)
+\* Cov(f_s(x_i), f_t(x_j)) = sum over the terms of k_data(x_i, x_j) * K_TT[s][t], task index fastest (per-point interleaved)
+MTaskEntry(i, x, a, y, b) == RSum([k \in 1..Len(i.terms) |-> RMul(KEval(i.terms[k].e, x, y), TaskCov(i.terms[k])[a + 1][b + 1])])
+MTaskMat(i) == Interleaved(i.X1, i.X2, i.T, LAMBDA r, a, s, b : MTaskEntry(i, i.X1[r], a, i.X2[s], b))
+MTaskDiag(i) == [p \in 1..(Len(i.X1) * i.T) |-> MTaskEntry(i, i.X1[((p - 1) \div i.T) + 1], (p - 1) % i.T, i.X1[((p - 1) \div i.T) + 1], (p - 1) % i.T)]
+IndexMat(i) == LET Kt == TaskCov(i.terms[1]) IN [r \in 1..Len(i.I1) |-> [s \in 1..Len(i.I2) |-> Kt[i.I1[r] + 1][i.I2[s] + 1]]]
+MTaskOK(i) ==
+  /\ \A k \in 1..Len(i.terms) : IsSym(TaskCov(i.terms[k])) /\ Len(i.terms[k].B) = i.T /\ Len(i.terms[k].v) = i.T
+  /\ LET M == MTaskMat(i)                                                                     \* the (a, b) task block is K_TT[a][b] * K_XX for one term
+     IN Len(i.terms) = 1 => \A a \in 1..i.T, b \in 1..i.T, r \in 1..Len(i.X1), s \in 1..Len(i.X2) :
+          M[(r - 1) * i.T + a][(s - 1) * i.T + b] = RMul(TaskCov(i.terms[1])[a][b], Gram(i.terms[1].e, i.X1, i.X2)[r][s])
+
+\* ---- no instance with equal entries in a multi-valued parameter ------------------------------------------------------------
+PairwiseDistinct(q) == \A a, b \in 1..Len(q) : a # b => Q(q[a]) # Q(q[b])
+RECURSIVE ExprDistinct(_)
+ExprDistinct(e) == CASE e.op = "lin" -> PairwiseDistinct(e.v)
+                     [] e.op \in {"poly", "const"} -> TRUE
+                     [] e.op = "scale" -> ExprDistinct(e.a)
+                     [] OTHER -> ExprDistinct(e.a) /\ ExprDistinct(e.b)
+DistinctOK ==
+  Part = "exact" =>
+    CASE c.kind = "expr"     -> ExprDistinct(c.e)
+      [] c.kind = "rbfratio" -> PairwiseDistinct(c.l2)
+      [] c.kind = "ng"       -> PairwiseDistinct(c.o)
+      [] c.kind = "arcmask"  -> PairwiseDistinct(c.om)
+      [] c.kind = "mtask"    -> \A k \in 1..Len(c.terms) : PairwiseDistinct(c.terms[k].v) /\ ExprDistinct(c.terms[k].e)
+      [] OTHER -> TRUE
+
 ExactOK ==
   Part = "exact" =>
     CASE c.kind = "expr"     -> ExprOK(c)
@@ -261,6 +399,8 @@ ExactOK ==
       [] c.kind = "rbfratio" -> RatioOK(c)
       [] c.kind = "pp"       -> PPOK(c)
       [] c.kind = "ng"       -> NGOK(c)
+      [] c.kind = "arcmask"  -> ArcOK(c)
+      [] c.kind = "mtask"    -> MTaskOK(c)
 
 Expected(i) ==
   CASE i.kind = "expr"     -> [K |-> Gram(i.e, i.X1, i.X2), diag |-> [r \in 1..Len(i.X1) |-> KEval(i.e, i.X1[r], i.X1[r])]]
@@ -268,13 +408,17 @@ Expected(i) ==
     [] i.kind = "rbfratio" -> [K |-> RatioMat(i)]
     [] i.kind = "pp"       -> [K |-> PPMat(i)]
     [] i.kind = "ng"       -> NGMats(i)
+    [] i.kind = "arcmask"  -> [K |-> ArcMat(i), diag |-> [r \in 1..Len(i.Q1) |-> ArcBase(i, ArcEmb(i.Q1[r], i.A1[r], i.om), ArcEmb(i.Q1[r], i.A1[r], i.om))]]
+    [] i.kind = "mtask"    -> [K |-> MTaskMat(i), diag |-> MTaskDiag(i), idx |-> IndexMat(i)]
 
 Init == /\ c \in (CASE Part = "lattice" -> {s \in Cells : Valid(s)}
                     [] Part = "layout" -> LayoutCells
+                    [] Part = "args" -> ArgCells
                     [] OTHER -> Instances)
         /\ out = (CASE Part = "lattice" -> PathOf(c)
                     [] Part = "layout" -> LET m == OutputsPerInput(c) IN [rows |-> c.n1 * m, cols |-> c.n2 * m, perm1 |-> Perm(c.n1, m), perm2 |-> Perm(c.n2, m)]
                     [] Part = "exact" -> Expected(c)
+                    [] Part = "args" -> ArgOut(c)
                     [] OTHER -> <<>>)
 Next == UNCHANGED vars
 Spec == Init /\ [][Next]_vars
